@@ -225,12 +225,32 @@ def case_eye(ctx, inp):
     ctx.eq("eye: Lean eyeDen matrix vs computed", m[1], np.asarray(r.compute(scheduler="sync")).astype(int).tolist())
     if len(v) > 1 or len(h) > 1:
         ctx.branch("eye:multi-block")
-    if (M if M is not None else N) != N:
+    Mv = M if M is not None else N
+    if Mv != N:
         ctx.branch("eye:rect")
     if k:
         ctx.branch("eye:k!=0")
-    if isinstance(chunks, int) and (chunks > N or chunks > (M if M is not None else N)):
+    if isinstance(chunks, int) and (chunks > N or chunks > Mv):
         ctx.branch("eye:chunk>dim")
+    # where the k-diagonal goes through the np.eye blocks (measures the generator; see _gen_eye)
+    if Mv > N and k > 0:
+        ctx.branch("eye:M>N:k>0" + (":k>=N" if k >= N else "") + (":k>=M-1" if k >= Mv - 1 else ""))
+    if N > Mv and k < 0:
+        ctx.branch("eye:N>M:k<0" + (":-k>=M" if -k >= Mv else "") + (":-k>=N-1" if -k >= N - 1 else ""))
+    for i, row in enumerate(table):
+        for j, cell in enumerate(row):
+            if not cell[0]:
+                continue
+            lk, bv, bh = cell[1], v[i], h[j]
+            form = "wide" if bh > bv else ("tall" if bv > bh else "square")
+            enters = "left" if lk < 0 else ("top" if lk > 0 else "corner")
+            # the diagonal leaves a bv x bh block through the bottom edge iff its last row is bv-1
+            dlen = min(bv - max(0, -lk), bh - max(0, lk))
+            leaves = "bottom" if max(0, -lk) + dlen == bv and max(0, lk) + dlen < bh else (
+                "right" if max(0, lk) + dlen == bh and max(0, -lk) + dlen < bv else "corner")
+            ctx.branch(f"eye:block:{form}:{enters}->{leaves}")
+            if (len(v) > 1 or len(h) > 1) and dlen < min(bv, bh):
+                ctx.branch("eye:block:partial-diagonal")
 
 
 def case_diag(ctx, inp):
@@ -385,22 +405,75 @@ def _shape_chunks(rng, shape):
     return rng.choice(["32B", "128B"])
 
 
-def generate(ctx):
+_EYE_BYTES = ["16B", "40B", "48B", "64B", "96B", "128B", "200B"]   # i8: non-square blocks such as (2,),(4,3)
+
+
+def _eye_chunk(rng, N, M):
+    """int chunk sizes aimed at block shapes: > N (one wide block row), > M, not dividing N / M, or a byte string"""
+    r = rng.random()
+    if r < 0.30:
+        return rng.randint(N + 1, max(N + 1, M + 2))          # wider than tall when M > N (taller than wide when N > M)
+    if r < 0.55:
+        nd = [c for c in range(2, max(N, M) + 1) if (N % c) or (M % c)]
+        return rng.choice(nd) if nd else rng.randint(1, max(1, M))
+    if r < 0.75:
+        return rng.randint(1, max(1, min(N, M)))
+    if r < 0.9:
+        return rng.choice(_EYE_BYTES)
+    return rng.choice(["auto", max(N, M) + 1, 1])
+
+
+def _eye_k_upper(rng, N, M):
+    """0 < k: inside, k >= N, near M, at/over M"""
+    return rng.choice([1, 2, max(1, N - 1), N, N + 1, max(1, M - 2), max(1, M - 1), M,
+                       rng.randint(1, max(1, M - 1)), rng.randint(1, max(1, M - 1)), rng.randint(1, max(1, M - 1)),
+                       rng.randint(min(N, M), max(N, M))])
+
+
+def _gen_eye(ctx):
     rng = ctx.rng
     # regression: the eye defect (#30) and friends
     yield "eye", {"N": 1, "M": 2, "k": 0, "chunks": 2, "dtype": "f8"}
     yield "eye", {"N": 2, "M": 7, "k": 3, "chunks": 3, "dtype": "i8"}
-    # --- exhaustive small eye grid ------------------------------------------------------------
-    grid_n = range(0, 4) if not ctx.thorough() else range(0, 6)
-    for N in grid_n:
-        for M in [None] + list(grid_n):
-            for c in ([1, 2, 3, 5] if not ctx.thorough() else [1, 2, 3, 4, 5, 7, "auto", "16B"]):
-                for k in range(-3, 4) if not ctx.thorough() else range(-6, 7):
+    yield "eye", {"N": 2, "M": 7, "k": 5, "chunks": "64B", "dtype": "i8"}
+    yield "eye", {"N": 7, "M": 3, "k": -4, "chunks": "40B", "dtype": "i8"}
+    # --- more columns than rows, upper diagonals through wide blocks (an independently seeded defect of this kind
+    #     was missed by the earlier generator); the mirror image (N > M, k < 0); runs first so a short deadline keeps it
+    for _ in range(ctx.n(170, 2500)):
+        N = rng.randint(1, 6)
+        M = N + rng.randint(1, 9)
+        k = _eye_k_upper(rng, N, M)
+        if rng.random() < 0.3:
+            N, M, k = M, N, -k
+        yield "eye", {"N": N, "M": M, "k": k, "chunks": _eye_chunk(rng, min(N, M), max(N, M)) if N < M else _eye_chunk(rng, M, N),
+                      "dtype": rng.choice(["i8", "i8", "f8", "bool"])}
+    # --- exhaustive small eye grid: N, M <= 7, every k in [-N-1, M+1], chunks 1..8 (5120 cases) in thorough;
+    #     a seeded 1/16 sample of it in quick (the boundary diagonals k in {-N, -1, 0, 1, N, M-1, M} at 1/6)
+    top = 8
+    for N in range(top):
+        for M in range(top):
+            for c in range(1, 9):
+                for k in range(-N - 1, M + 2):
+                    if not ctx.thorough():
+                        p = 1 / 6 if (k in (-N, -1, 0, 1, N, M - 1, M) and M != N) else 1 / 16
+                        if rng.random() >= p:
+                            continue
                     yield "eye", {"N": N, "M": M, "k": k, "chunks": c, "dtype": "i8"}
-    for _ in range(ctx.n(150, 2000)):
+    if ctx.thorough():
+        for N in range(6):
+            for M in [None] + list(range(6)):
+                for c in ["auto"] + _EYE_BYTES:
+                    for k in range(-N - 1, (N if M is None else M) + 2):
+                        yield "eye", {"N": N, "M": M, "k": k, "chunks": c, "dtype": "i8"}
+    for _ in range(ctx.n(120, 2000)):
         N, M = rng.randint(0, 12), rng.choice([None, rng.randint(0, 12)])
         yield "eye", {"N": N, "M": M, "k": rng.randint(-13, 13), "chunks": rng.choice([rng.randint(1, 14), "auto", "16B", "64B"]),
                       "dtype": rng.choice(["f8", "i8", "bool", "f4"])}
+
+
+def generate(ctx):
+    rng = ctx.rng
+    yield from _gen_eye(ctx)
     # --- arange: integers (function level) -------------------------------------------------------
     for _ in range(ctx.n(380, 6000)):
         a, b = rng.randint(-20, 20), rng.randint(-20, 30)
